@@ -667,6 +667,58 @@ Theorem gen_osmlem_whole_call_is_model :
     /\ hget (l_heap s) (OCaller "x") = Some (iter niter (em_step eps ops) x).
 Proof. exact gen_osmlem_run. Qed.
 Print Assumptions gen_osmlem_whole_call_is_model.
+
+(* ---- random=True: the permutation drawn in outer iteration k is a parameter  order k  (any list of
+   operator indices); both programs are run under the same stream of permutations ---- *)
+Theorem adupdates_random_opt_refines_ref :
+  forall (stepsize : R) (ops : list (@adop R)) (dflt : @adop R) (order : nat -> list nat),
+  (forall k j, In j (order k) -> (j < length ops)%nat) ->
+  forall (n k0 : nat) (x : list R) (duals tmps : list (list R)),
+  (forall j, (j < length ops)%nat -> (ad_key (nth j ops dflt) < length tmps)%nat) ->
+  fst (iterk n k0 (fun k => ad_opt_step_ord stepsize ops dflt (order k)) (x, duals, tmps))
+  = iterk n k0 (fun k => ad_ref_step_ord stepsize ops dflt (order k)) (x, duals).
+Proof. exact ad_ord_refines. Qed.
+Print Assumptions adupdates_random_opt_refines_ref.
+
+Theorem resume_exact_kaczmarz_random :     (* the second call continues the permutation stream *)
+  forall (proj : list R -> list R) (ops : list (@kzop R)) (dflt : @kzop R) (order : nat -> list nat) (n m : nat) (x : list R),
+  iterk (n + m) 0 (fun k => kz_step_ord proj ops dflt (order k)) x
+  = iterk m 0 (fun k => kz_step_ord proj ops dflt (order (n + k)%nat))
+      (iterk n 0 (fun k => kz_step_ord proj ops dflt (order k)) x).
+Proof. exact kz_ord_resume. Qed.
+Print Assumptions resume_exact_kaczmarz_random.
+
+(* the regenerated random-order programs (preambles included), every number of operators *)
+Theorem gen_adupdates_random_equals_simple_all_n :
+  forall (stepsize : R) (junk : string -> list R) (dflt : @adop R) (ops : list (@adop R)),
+  (forall j, (j < length ops)%nat -> ad_inner_v (nth j ops dflt) = None) ->
+  forall (order : nat -> list nat), (forall k j, In j (order k) -> (j < length ops)%nat) ->
+  forall (nkeys niter : nat) (x : list R),
+  (forall j, (j < length ops)%nat -> (ad_key (nth j ops dflt) < nkeys)%nat) ->
+  let I := adI stepsize junk dflt ops in let rkey := adkey dflt ops in
+  exists s0 s0' so sr,
+    pexec I rkey (length ops) nkeys adupdates_random_lpre (s_init x) = Some s0
+    /\ literk niter 0 (fun k => litems_ord I rkey (length ops) (order k) adupdates_random_lbody) s0 = Some so
+    /\ pexec I rkey (length ops) nkeys adupdates_simple_random_lpre (s_init x) = Some s0'
+    /\ literk niter 0 (fun k => litems_ord I rkey (length ops) (order k) adupdates_simple_random_lbody) s0' = Some sr
+    /\ length (l_log so) = niter
+    /\ hget (l_heap so) (OCaller "x") = hget (l_heap sr) (OCaller "x").
+Proof. exact gen_adupdates_random_equiv. Qed.
+Print Assumptions gen_adupdates_random_equals_simple_all_n.
+
+Theorem gen_kaczmarz_random_whole_call_is_model :
+  forall (proj : list R -> list R) (junk : string -> list R) (dflt : @kzop R) (ops : list (@kzop R))
+         (rkey : nat -> nat) (nkeys : nat),
+  (forall j, (j < length ops)%nat -> (rkey j < nkeys)%nat) ->
+  forall (order : nat -> list nat), (forall k j, In j (order k) -> (j < length ops)%nat) ->
+  forall (niter : nat) (x : list R),
+  let I := kzI proj junk dflt ops in
+  exists s0 s, pexec I rkey (length ops) nkeys kaczmarz_random_lpre (kz_init dflt ops x) = Some s0
+    /\ literk niter 0 (fun k => litems_ord I rkey (length ops) (order k) kaczmarz_random_lbody) s0 = Some s
+    /\ l_log s = tracek (fun x => x) niter 0 (fun k => kz_step_ord proj ops dflt (order k)) x
+    /\ hget (l_heap s) (OCaller "x") = Some (iterk niter 0 (fun k => kz_step_ord proj ops dflt (order k)) x).
+Proof. exact gen_kaczmarz_random_run. Qed.
+Print Assumptions gen_kaczmarz_random_whole_call_is_model.
 Local Close Scope string_scope.
 
 (* ------------------------------------------------------------ non-vacuity *)
